@@ -1,3 +1,138 @@
+import Driver.Util
 import Driver.Loop
-/- placeholder: the C13 view has no executable model yet -/
-def main : IO Unit := Drv.runLoop fun _ => .atom "bad-op"
+import PMV.Model.Reduce
+/- line-protocol handlers for the C13 view (reductions and ordering operations) -/
+namespace Drv.C13
+open PMV PMV.Reduce Drv
+
+def parseAxis : Sx → Option Axis
+  | .atom "N" => some .none
+  | .list (.atom "t" :: l) => (l.mapM Sx.toInt?).map .tup
+  | x => x.toInt?.map .int
+
+def repOf : MaskRep → Rep
+  | .scalar b => .scalar b
+  | .array _ => .array
+
+def errSx : Err → Sx
+  | .index => .atom "IndexError"
+  | .value => .atom "ValueError"
+  | .type => .atom "TypeError"
+
+def M : Sx := .atom "M"
+
+/-- a fraction in lowest terms -/
+def fracSx (p : Int × Nat) : Sx :=
+  let g := Nat.gcd p.1.natAbs p.2
+  if g == 0 then .list [Sx.ofInt p.1, Sx.ofNat p.2]
+  else .list [Sx.ofInt (p.1 / (g : Int)), Sx.ofNat (p.2 / g)]
+
+def outArr {β : Type} (f : β → Sx) (a : Arr (Out β)) : Sx :=
+  .list [Sx.ofNats a.shape, .list (a.toList.map fun r => match obs r with | none => M | some v => f v)]
+
+def outRes {β : Type} (f : β → Sx) : Except Err (Arr (Out β)) → Sx
+  | .error e => errSx e
+  | .ok a => outArr f a
+
+def cellArr (shape : Shape) (vals : Array Int) (mask : MaskRep) : Arr (Cell Int) :=
+  ⟨shape, fun i => ⟨vals[ravel shape i]!, mask.at shape i⟩⟩
+
+def vcellArr (shape : Shape) (isz : Nat) (vals : Array Int) (mask : MaskRep) : Arr (Cell (List Int)) :=
+  ⟨shape, fun i => ⟨itemAt vals shape isz i, mask.at shape i⟩⟩
+
+def bcellArr (shape : Shape) (vals : Array Bool) (mask : MaskRep) : Arr (Cell Bool) :=
+  ⟨shape, fun i => ⟨vals[ravel shape i]!, mask.at shape i⟩⟩
+
+def vfracSx (p : List Int × Nat) : Sx := .list (p.1.map fun n => fracSx (n, p.2))
+
+def handle : List Sx → Sx
+  | [.atom "red", .atom name, sh, vs, m, ax, mn, mx] =>
+    match sh.nats?, vs.ints?, parseMask m, parseAxis ax, mn.toInt?, mx.toInt? with
+    | some shape, some vals, some mask, some axis, some minval, some maxval =>
+      let a := cellArr shape vals.toArray mask
+      match name with
+      | "sum" => outRes Sx.ofInt (sumCode 1 a axis)
+      | "mean" => outRes fracSx (meanCode 1 a axis)
+      | "max" => outRes Sx.ofInt (maxCode minval 1 a axis)
+      | "min" => outRes Sx.ofInt (minCode maxval 1 a axis)
+      | "argmax" => outRes Sx.ofNat (argmaxCode minval a axis)
+      | "argmin" => outRes Sx.ofNat (argminCode maxval a axis)
+      | "median" => outRes Sx.ofInt (medianCode maxval 2 a axis)
+      | "sort" => outRes Sx.ofInt (sortCode maxval (repOf mask) a axis)
+      | _ => err "reduction"
+    | _, _, _, _, _, _ => err "operand"
+  | [.atom "vred", .atom name, sh, isz, vs, m, ax] =>
+    match sh.nats?, isz.toNat?, vs.ints?, parseMask m, parseAxis ax with
+    | some shape, some isz, some vals, some mask, some axis =>
+      let a := vcellArr shape isz vals.toArray mask
+      let dflt := List.replicate isz 1
+      match name with
+      | "sum" => outRes Sx.ofInts (vSumCode isz dflt a axis)
+      | "mean" => outRes vfracSx (vMeanCode isz dflt a axis)
+      | _ => err "reduction"
+    | _, _, _, _, _ => err "operand"
+  | [.atom "dred", .atom name, sh, vs, m, ax, ds] =>
+    match sh.nats?, vs.ints?, parseMask m, parseAxis ax, ds.toList? with
+    | some shape, some vals, some mask, some axis, some ds =>
+      let a := cellArr shape vals.toArray mask
+      let derivs : Option (List (Arr (Cell Int))) := ds.mapM fun d =>
+        match d with
+        | .list [dv, dm] =>
+          match dv.ints?, parseMask dm with
+          | some dv, some dm => some (cellArr shape dv.toArray dm)
+          | _, _ => none
+        | _ => none
+      match derivs with
+      | none => err "derivs"
+      | some derivs =>
+        match name with
+        | "sum" =>
+          match sumWithDerivs 1 a derivs axis with
+          | .error e => errSx e
+          | .ok (r, dr) => .list [outArr Sx.ofInt r, .list (dr.map (outRes Sx.ofInt))]
+        | "mean" =>
+          match meanWithDerivs 1 a derivs axis with
+          | .error e => errSx e
+          | .ok (r, dr) => .list [outArr fracSx r, .list (dr.map (outRes fracSx))]
+        | _ => err "reduction"
+    | _, _, _, _, _ => err "operand"
+  | [.atom "bred", .atom name, sh, vs, m, ax] =>
+    match sh.nats?, vs.bools?, parseMask m, parseAxis ax with
+    | some shape, some vals, some mask, some axis =>
+      let a := bcellArr shape vals.toArray mask
+      match name with
+      | "any" => outRes Sx.ofBool (anyCode (repOf mask) a axis)
+      | "all" => outRes Sx.ofBool (allCode (repOf mask) a axis)
+      | _ => err "reduction"
+    | _, _, _, _ => err "operand"
+  | [.atom "maxmin", .atom name, sh, ops] =>
+    -- operands already broadcast to the common shape `sh`; each is (vals mask-bits)
+    match sh.nats?, ops.toList? with
+    | some shape, some ops =>
+      let arrs : Option (List (Arr (Cell Int))) := ops.mapM fun o =>
+        match o with
+        | .list [v, m] =>
+          match v.ints?, parseMask m with
+          | some v, some m => some (cellArr shape v.toArray m)
+          | _, _ => none
+        | _ => none
+      match arrs with
+      | none => err "operand"
+      | some arrs =>
+        let f := if name == "maximum" then maximumCode else minimumCode
+        if arrs.isEmpty then .atom "ValueError"
+        else
+          let res : Arr (Out Int) := ⟨shape, fun i =>
+            match f (arrs.map fun a => a.get i) with
+            | some c => (c.v, c.m)
+            | none => (0, true)⟩
+          outArr Sx.ofInt res
+    | _, _ => err "operand"
+  | _ => err "c13-op"
+
+end Drv.C13
+
+def main : IO Unit := Drv.runLoop fun x =>
+  match x with
+  | .list (.atom "c13" :: rest) => Drv.C13.handle rest
+  | _ => .atom "bad-op"
